@@ -128,7 +128,7 @@ def summarise(agg, tier):
     return {
         "thresholds": {"streams_checked": 1000 if q else 50000, "guarded_conflicts": 2000 if q else 100000, "guarded_by_kernel_wait": 200 if q else 10000,
                        "guarded_by_dma_wait": 200 if q else 10000, "guarded_by_blockdep": 200 if q else 10000, "guarded_dma_to_shram": 20 if q else 500,
-                       "blockdep_job_pairs_examined": 1000 if q else 50000, "pipeline_streams_checked": 150 if q else 2500, "pipeline_guarded_conflicts": 100 if q else 3000},
+                       "blockdep_job_pairs_examined": 1000 if q else 50000, "pipeline_streams_checked": 110 if q else 2000, "pipeline_guarded_conflicts": 100 if q else 3000},
         "rule": "direct: random DMA/kernel interleavings of length 2..40 over a pool of 2-4 buffers per region (conflicts are frequent), random layouts, tiles, strides, block "
                 "configs, LUT DMAs into SHRAM, U55 and U65 outstanding limits; pipeline: every stream of real compilations (cascades, weight DMAs, LUT DMAs). The checker "
                 "simulates both queues from the emitted waits and enumerates block-job pairs allowed by the emitted BLOCKDEP; guarded_* counters are conflicts that exist and are "
